@@ -143,5 +143,32 @@ SPECS.update({
 })
 
 
+def c15_extra(agg):
+    states = set()
+    seqs = 0
+    for k in agg.hist.get("outcomes", {}):
+        if k.startswith("holds:"):
+            seqs += 1
+            for st in k[len("holds:"):].split(";"):
+                states.add(st)
+    solo = {r["operation"]: r["alone_in_fresh_process"] for r in agg.info if "operation" in r}
+    return {"states": max(1, len(states)), "distinct_canonical_states": sorted(states), "distinct_state_sequences": seqs,
+            "transitions": int(agg.cov.get("evaluations", 0)), "traces_validated_against_impl": int(agg.cov.get("evaluations", 0)),
+            "operations_alone": solo,
+            "inductive_note": "if distinct_canonical_states has one element, every library-level operation returns the process to the initial canonical state (live counter, singleton, thread count, default-name buffer), "
+                              "so agreement at this depth extends to longer library-level histories; histories containing command-line parsing also carry glibc's hidden getopt cursor, for them the claim is the depth bound"}
+
+
+SPECS.update({
+    "C15": dict(
+        harness="histories", src=["harness/histories.cpp"], plan=lambda tier: [dict(defs=defs(2), args=dict(mode="c15", bufsz=2, hbufsz=2), nshards=16)], level="model_checking",
+        rule="alphabet of 16 operations (9 library-level encrypt/decrypt/verify incl. failing ones, 7 command-line vectors incl. parses that fail early and inside a short-option cluster); ALL sequences up to depth 3 "
+             "(thorough: depth 4 with a reduced alphabet at the last level), each history in one fresh forked process on the canonical schedule; differential oracle: the i-th operation observes exactly what it observes alone in a fresh process; "
+             "state = canonical process-wide state after each step; distinct = (depth, first op, last op) classes",
+        assumptions=ASSUME_FILE + ["random IV seed of the command-line encrypt is treated as an output: its file is checked through the reference decryptor instead of byte equality"],
+        extra_cov=c15_extra),
+})
+
+
 def run(pid, tier, replay=None):
     return casecheck.run_spec(pid, tier, SPECS[pid], replay=replay)
